@@ -21,6 +21,8 @@ import Pysmi.Model.Time
 import Pysmi.Generated.Cli
 import Pysmi.Generated.Pysnmp
 import Pysmi.Generated.Smiv1
+import Pysmi.Model.Grammar
+import Pysmi.Generated.Grammar
 /-!
 Line-protocol driver: one JSON object per input line, one JSON value per output line.
 Imports only the import-free model files and `Lean.Data.Json`.
@@ -799,6 +801,23 @@ def opParse (ld : Loaded) (j : Json) : Except String Json := do
   | .other m => return Json.mkObj [("error", .str ("other: " ++ m))]
 end Pr
 
+namespace Gf
+/-- {"op":"factory","which":"parser"|"lexer","kw":[[name,bool],…]} → {"error":name} | {"ok":[[member,option],…]} -/
+def opFactory (j : Json) : Except String Json := do
+  let which ← (← j.getObjVal? "which").getStr?
+  let tbl := if which == "lexer" then Pysmi.Generated.Grammar.lexerOptionMembers else Pysmi.Generated.Grammar.optionFuncs
+  let kw ← (← (← j.getObjVal? "kw").getArr?).toList.mapM (fun p => do
+    match (← p.getArr?).toList with
+    | [n, b] => pure ((← n.getStr?), (← b.getBool?))
+    | _ => throw "kw entry")
+  match Pysmi.Grammar.factory tbl kw with
+  | .error e => return Json.mkObj [("error", .str e)]
+  | .ok c =>
+    let members := (tbl.flatMap (·.2)).eraseDups
+    let got := members.filterMap (fun m => (c m).map (fun o => (m, o)))
+    return Json.mkObj [("ok", Json.arr (got.map (fun (m, o) => Json.arr #[.str m, .str o])).toArray)]
+end Gf
+
 def handle (j : Json) : Except String Json := do
   let op ← (← j.getObjVal? "op").getStr?
   match op with
@@ -822,6 +841,7 @@ def handle (j : Json) : Except String Json := do
   | "pysnmp" => Ps.opPysnmp j
   | "cli" => Cl.opCli j
   | "put2" => Wr.opPut2 j
+  | "factory" => Gf.opFactory j
   | _ => throw s!"unknown op {op}"
 
 partial def loop (hin hout : IO.FS.Stream) (loaded : List (String × Pr.Loaded)) : IO Unit := do
